@@ -163,7 +163,7 @@ func (x *Exec) realInf() *smt.Term {
 	if !x.ufDecl["infax"] {
 		x.ufDecl["infax"] = true
 		x.axiom(x.b.Cmp(">", inf, x.b.Real(new(big.Rat).SetFloat64(1e300))))
-		x.note("real model: math.Inf is a symbolic constant larger than 1e300; inputs are not constrained to be smaller")
+		x.note("real model: math.Inf is a symbolic constant; every finite value compared with it is assumed to lie strictly between -Inf and +Inf")
 	}
 	return inf
 }
